@@ -203,6 +203,11 @@ fn module_plain(e: &EnumSpec, cfg: Config, nested: bool) -> ModuleSrc {
     let mut e2 = e.clone();
     let mut prefix = if cfg == Config::Renamed { "strum_x::" } else { "strum::" };
     if cfg == Config::Renamed {
+        // (a neutral `crate = "::strum"` from the generator does not exist under this configuration)
+        for g in e2.groups.iter_mut() {
+            g.retain(|a| !matches!(a, EAttr::Crate(_)));
+        }
+        e2.groups.retain(|g| !g.is_empty());
         // three spellings of the configured path; for the absolute one a local decoy of the same name
         // sits in scope, so dropping the leading `::` resolves to the wrong item
         let path = match (nested, e.hash64() % 3 == 0) {
